@@ -292,6 +292,9 @@ def hypergraphs(tier):
         out.append((es, None, iso))
     out.append((((2, 5), (5, 7, 11)), (2, 1), (13,)))
     out.append((((2, 5), (7, 11)), None, ()))
+    # hypergraphs in which some size between 2 and the maximum does not occur
+    out.append((((2, 5, 7), (5, 7, 11)), None, ()))
+    out.append((((2, 5), (5, 7), (2, 5, 7, 11)), None, ()))
     # weighted inputs with weights far from 1 (responsibilities must not depend on the weights)
     out.append((((2, 5), (5, 7), (2, 7, 11)), (4, 1, 3), ()))
     out.append((((2, 5, 7), (7, 11), (2, 11)), (1, 4, 2), ()))
